@@ -720,5 +720,66 @@ func (h *harness) runCase(k *kase, index int) {
 				}
 			}
 		}
+
+		// ---- clause (b)/(c): short UDT values. A UDT value may legally stop after k < n fields; the
+		// missing trailing fields are nulls and must come out exactly as explicit nulls do: nil in
+		// nillable slots, zero otherwise (also in a destination that held something before), map
+		// keys present with a nil value.
+		if nf := maxUdtFields(t); nf >= 2 && !v2 && fullVer {
+			fw, werr := walkWire(t, fullBytes, false)
+			if werr != nil {
+				c.Inconclusive("short-udt-baseline-unreadable")
+				continue
+			}
+			for k := 1; k < nf; k++ {
+				short := shortUdt(t, fw, k)
+				want := markShort(t, full, k)
+				judge := func(label string, d reflect.Value, prefilled, strict bool) {
+					if prefilled {
+						h.dec(codec, fullBytes, d.Interface(), ver)
+					}
+					wasNull, err, pan := h.dec(codec, short, d.Interface(), ver)
+					lc.evals++
+					lc.count("c_short_udt_decodes", 1)
+					lc.sig("c-short", t.str, label, fmt.Sprint(prefilled))
+					what := ""
+					switch {
+					case pan != "":
+						what = "short-value-panic"
+					case err != nil:
+						what = "short-value-decode-error"
+					case wasNull:
+						what = "short-value-wasNull-true"
+					default:
+						var ps probset
+						cmpValue(t, want, d.Elem(), false, strict, &ps)
+						if ps["null-lost"] || ps["null-slot-not-zero"] || ps["null-key-absent"] {
+							what = "short-value-missing-field-not-null"
+						} else if cl := classify(ps, ""); cl != "" {
+							what = "short-value-" + cl
+						}
+					}
+					if what != "" {
+						dd := mkDetail(ver, nil)
+						dd.Dst, dd.Bytes, dd.Err = label, hex.EncodeToString(short), errStr(err)+pan
+						dd.Got = safeFmt(d.Elem())
+						dd.Input = fmt.Sprintf("UDT value cut after %d field(s); prefilled-destination=%v", k, prefilled)
+						dd.Want = "the omitted trailing fields decoded as explicit nulls would be"
+						viol("c", label, what, dd)
+					}
+				}
+				for i, s := range dstSpecs {
+					if !dstOK[i] {
+						continue
+					}
+					for _, prefilled := range []bool{false, true} {
+						judge(dstLabels[i], s.dest(dstT[i]), prefilled, s.top == "iface")
+					}
+				}
+				if untypedOK {
+					judge("untyped", reflect.New(tIface), false, true)
+				}
+			}
+		}
 	}
 }
